@@ -24,7 +24,7 @@ Judge ==
      IF tr.raised
      THEN /\ PrintT(<<"REJECT", tr.id, "ALL", "NeverFails:raised", 0>>)
           /\ nrej' = nrej + 1 /\ nacc' = nacc
-     ELSE LET v == TreeVerdicts(tr.inp, tr.nodes, tr.posq, Groups)
+     ELSE LET v == TreeVerdicts(tr.inp, tr.nodes, tr.posq, Groups, tr.aux)
               bad == {g \in Groups : v[g][1] # "ok"}
           IN /\ \A g \in bad : PrintT(<<"REJECT", tr.id, g, v[g][1], v[g][2]>>)
              /\ IF bad = {} THEN nacc' = nacc + 1 /\ nrej' = nrej
